@@ -37,7 +37,9 @@ def calcIfmBlockDepth (a : AccRow) (ifmDepth ifmBits : Int) : Option Int :=
 
 /-- `get_ifm_ofm_block_depth(arch, npu_op)` -/
 def getIfmOfmBlockDepth (a : AccRow) (op : BlockOp) : Option Int :=
-  if op.isConv2D then calcIfmBlockDepth a op.ifm.shape.depth op.ifmBits else some op.ofm.shape.depth
+  if op.isConv2D then calcIfmBlockDepth a op.ifm.shape.depth op.ifmBits
+  else if op.isReduceSum then some op.ifm.shape.depth      -- reduce sum reads every IFM channel
+  else some op.ofm.shape.depth
 
 /-- `arch.get_ifm_block_size(ifm_block_depth, ofm_block, kernel, subkernel)` with no resampling.
     `get_first_job_input_volume` passes `arch.ofm_block_max` as the sub-kernel limit. -/
@@ -55,7 +57,8 @@ def coordsIntersect (sa ea sb eb : Pt) : Bool :=
 
 /-- `intersects(ifm, ifm_start, ifm_end, prev_ofm, ofm_start, ofm_end)` -/
 def intersects (ifm : FMap) (is ie : Pt) (prevOfm : FMap) (os oe : Pt) : Bool :=
-  if ifm.shape = prevOfm.shape ∧ ifm.tiles = prevOfm.tiles then coordsIntersect is ie os oe
+  if ifm.shape = prevOfm.shape ∧ ifm.tiles = prevOfm.tiles ∧ ifm.nhcwb16 = prevOfm.nhcwb16 ∧
+      ifm.elemBytes = prevOfm.elemBytes ∧ getStrides ifm = getStrides prevOfm then coordsIntersect is ie os oe
   else
     rangeListsOverlap (getAddressRangesForArea ifm is.y is.x is.z ie.y ie.x ie.z)
       (getAddressRangesForArea prevOfm os.y os.x os.z oe.y oe.x oe.z)
@@ -85,7 +88,7 @@ structure Area where
 deriving Repr, DecidableEq, Inhabited
 
 /-- `get_first_job_input_volume(arch, ifm, ofm, ifm_block_depth, ofm_block, kernel, padding, block_offset)`.
-    Note `padding.right` in the y coordinate: transcribed as written. -/
+-/
 def getFirstJobInputVolume (a : AccRow) (ifmSize ofmSize : Blk3) (ifmBlockDepth : Int) (ofmBlock : Blk3)
     (k : Kernel) (p : Padding) (blockOffset : Int) : Option (Option Area) :=
   let ifmBlock := getIfmBlockSize a ifmBlockDepth ofmBlock k a.ofmBlockMax.width a.ofmBlockMax.height
@@ -97,7 +100,7 @@ def getFirstJobInputVolume (a : AccRow) (ifmSize ofmSize : Blk3) (ifmBlockDepth 
   | some none => some none
   | some (some oc) =>
     let sx := max 0 (oc.x * k.strideX - p.left)
-    let sy := max 0 (oc.y * k.strideY - p.right)
+    let sy := max 0 (oc.y * k.strideY - p.top)
     let sz := 0 + (blockOffset % ifmDepthBlocks) * ifmBlock.depth
     some (some { start := ⟨sx, sy, sz⟩, stop := ⟨sx + ifmBlock.width, sy + ifmBlock.height, sz + ifmBlock.depth⟩ })
 
